@@ -200,7 +200,7 @@ def run_lin(job):
             if w is None:
                 bad.append([{k: repr(v) for k, v in o.items()} for o in sorted(ops, key=lambda o: o['first'] or 0)])
         ex.explore(done)
-        res.update(states=ex.states, transitions=ex.transitions, executions=ex.executions, accesses=ex.accesses)
+        res.update(states=ex.states, transitions=ex.transitions, executions=ex.executions, accesses=ex.accesses, spins_cut=ex.spins_cut)
         if bad:
             res['status'] = VIOLATED
             res['what'] = 'an interleaving of %s on a %s of %d slots (%d stored) yields a history no sequential order explains' % (
@@ -429,7 +429,7 @@ def run(tier='quick', repo=None):
     rep.tables['product_exploration'] = dict(tot, configurations=len(lin_res),
                                              largest=max(lin_res, key=lambda r: r.get('states', 0))['name'] if lin_res else None)
     rep.tables['sequential'] = {'sequences': len(seq_res), 'max_length': nmax, 'ring_lengths': [0, 1, 2, 3], 'reinsertions_checked': nre}
-    rep.states = tot['states']
+    rep.extra_cov = {'states': tot['states'], 'transitions': tot['transitions'], 'executions': tot['executions']}
     rep.assumptions = [
         'sequential consistency for every access (the atomic builtins are seq_cst - C09 R-seqcst; plain accesses to ring elements are not reordered)',
         'uatomic_* are modelled as atomic load / store / compare-exchange / fetch-add on a 32-bit word (their bodies are checked under C09)',
